@@ -199,6 +199,35 @@ def sites(U, f, cache):
   env0 = pred.Env(params, f.mod, parent=parent_env)
   N = pred.Normalizer(f.mod)
   out = []
+  # calls to the function's own nested defs are pure functions of their arguments and of the enclosing
+  # function's variables they close over (a helper `def root_fn(i): ...` is as much configuration as the
+  # lambda it may replace)
+  outer_params = set(params)
+  g = f.parent
+  while g is not None:
+    ga = g.node.args
+    outer_params |= {x.arg for x in ga.posonlyargs + ga.args + ga.kwonlyargs}
+    g = g.parent
+  import builtins as _bi
+  nested = {}
+  for nd in ast.walk(f.node):
+    if isinstance(nd, ast.FunctionDef) and nd is not f.node:
+      own = {x.arg for x in nd.args.posonlyargs + nd.args.args + nd.args.kwonlyargs}
+      own |= {t.id for x in ast.walk(nd) for t in ([x] if isinstance(x, ast.Name) and isinstance(x.ctx, ast.Store) else [])}
+      free = {x.id for x in ast.walk(nd) if isinstance(x, ast.Name) and isinstance(x.ctx, ast.Load)} - own - {nd.name}
+      free = {x for x in free if not hasattr(_bi, x) and x not in getattr(f.mod, 'alias', {})}
+      nested[nd.name] = free
+
+  def purify(t):
+    if not isinstance(t, tuple) or not t:
+      return t
+    if t[0] == 'call' and isinstance(t[1], str) and t[1] in nested:
+      extra = tuple(('f', x) if x in outer_params else ('raw', x) for x in sorted(nested[t[1]]))
+      return ('call', 'lambda', tuple(purify(x) for x in t[2]) + extra, tuple((k, purify(v)) for k, v in t[3]))
+    return tuple(purify(x) if isinstance(x, tuple) else x for x in t)
+
+  def mk_site(kind, fun, node, term):
+    return Site(kind, fun, node, purify(term))
 
   def visit(n, env):
     if isinstance(n, (ast.FunctionDef, ast.AsyncFunctionDef, ast.ClassDef)):
@@ -225,27 +254,27 @@ def sites(U, f, cache):
         if d and d[-1] in ('vmap',) and len(n.args) == 2:
           iname = pred.show(N.term(inner, env))
           if iname in ('jax.numpy.divide', 'numpy.divide'):
-            out.append(Site('div', f, n, N.term(n.args[1], env)))
+            out.append(mk_site('div', f, n, N.term(n.args[1], env)))
       name = pred.show(N.term(n.func, env)) if dotted(n.func) else None
       if name in ('jax.numpy.divide', 'numpy.divide', 'jax.numpy.true_divide') and len(n.args) == 2:
-        out.append(Site('div', f, n, N.term(n.args[1], env)))
+        out.append(mk_site('div', f, n, N.term(n.args[1], env)))
       if name in ROOT_PRIMS and n.args:
         kind = ROOT_PRIMS[name]
         if kind == 'power':
           ex = N.term(n.args[1], env) if len(n.args) > 1 else None
           if not (ex is not None and pred.is_const(ex) and isinstance(ex[1], int) and ex[1] >= 0):
-            out.append(Site('power', f, n, N.term(n.args[0], env)))
+            out.append(mk_site('power', f, n, N.term(n.args[0], env)))
         else:
-          out.append(Site(kind, f, n, N.term(n.args[0], env)))
+          out.append(mk_site(kind, f, n, N.term(n.args[0], env)))
     if isinstance(n, ast.BinOp) and isinstance(n.op, ast.Div):
-      out.append(Site('div', f, n, N.term(n.right, env)))
+      out.append(mk_site('div', f, n, N.term(n.right, env)))
       out[-1].num = N.term(n.left, env)
     if isinstance(n, ast.BinOp) and isinstance(n.op, ast.Pow):
       ex = N.term(n.right, env)
       if not (pred.is_const(ex) and isinstance(ex[1], (int, float)) and float(ex[1]) == int(ex[1]) and ex[1] >= 0):
-        out.append(Site('power', f, n, N.term(n.left, env)))
+        out.append(mk_site('power', f, n, N.term(n.left, env)))
     if isinstance(n, ast.AugAssign) and isinstance(n.op, ast.Div):
-      out.append(Site('div', f, n, N.term(n.value, env)))
+      out.append(mk_site('div', f, n, N.term(n.value, env)))
     for c in ast.iter_child_nodes(n):
       visit(c, env)
 
